@@ -36,7 +36,12 @@ theorem pre_ok : OkCif C03.opts2 pre := by
   subst hl; decide
 
 example : OkCif C03.opts2 (parse C03.opts2 dieAll pre (a!"data_A _X 1 _y")).cif :=
-  C03_consistent_after _ _ _ _ pre_ok
+  (C03_consistent_after _ _ _ _ pre_ok).1
+
+/-- … and rectangular, the pre-existing content being rectangular -/
+example : Model.Parser.RectCif (parse C03.opts2 dieAll pre (a!"data_A _X 1 _y")).cif :=
+  (C03_consistent_after _ _ _ _ pre_ok).2 (by simp [pre, Model.Parser.RectCif, Model.Parser.RectCs, Model.Parser.RectC,
+    Model.Parser.LoopsRect, Model.Parser.LoopRect])
 
 /-- what the second conjunct of `C03_callback_lines` (`0 ≤ r.col`) says: nothing — it holds of every natural number -/
 example (r : Report) : 0 ≤ r.col := Nat.zero_le _
